@@ -553,7 +553,10 @@ def ident_names(rng, tier, builtin_names):
         names.append(w + "_" + w)
     names += ["trueish", "null_count", "android", "iffy", "falsey", "nothing", "donut", "orange", "returned",
               "outputs", "elsewhere", "thence", "nullable", "truth", "fals", "nul", "i", "t", "_", "__", "_1",
-              "a1b2", "via_", "x_via", "wherever", "intox", "notify", "dot", "ifx", "if_", "or2", "and_1"]
+              "a1b2", "via_", "x_via", "wherever", "intox", "notify", "dot", "ifx", "if_", "or2", "and_1",
+              # names that extend the evaluator's fixed names (inf, infinity, constants, inputs, pi, e, ...)
+              "info", "inflation", "inf_", "infinity_norm", "constants_table", "constant", "inputs_x", "input",
+              "pie", "e1", "tau2", "nano", "max_valued", "output_rate", "outputs2"]
     alpha = "abcdefghijklmnopqrstuvwxyzABCDEFGHIJKLMNOPQRSTUVWXYZ_"
     for _ in range(40 if tier == "quick" else 400):
         n = rng.choice(alpha) + "".join(rng.choice(alpha + "0123456789") for _ in range(rng.below(8)))
@@ -707,7 +710,31 @@ def ident_stream(h, res, rng, tier, builtin_names, model_ok=True):
     outs = c.harness_lines_resilient(h, "parse10", lines)
     ev_lines = [c.hexs("%s = 5\n%s + 1" % (n, n)) for n in names]
     ev = c.harness_lines_resilient(h, "eval", ev_lines)
+    # evaluation: a program over a plain name gives the same results as the same program over another
+    # plain name (binding at top level, as a parameter of every kind, as a do-local; referenced in every
+    # position incl. from a closure that outlives the scope that bound it)
+    REN = ["%s = 5\n[%s + 1, {%s}, {hk9: %s}, [%s][0], (hx9 => hx9 + %s)(1), do {\n  hy9 = %s\n  return hy9\n}]",
+           "hmk9 = %s => (hx9 => hx9 + %s)\nhf9 = hmk9(10)\nhf9(1)",
+           "hmk9 = (ha9, %s?) => (hx9 => [hx9, %s])\nhmk9(1)(2)",
+           "hmk9 = (...%s) => (hx9 => [hx9, %s])\nhmk9(1, 2)(3)",
+           "hh9 = () => do {\n  %s = 3\n  hk9 = () => %s + 1\n  return hk9\n}\nhh9()()",
+           "hr9 = {%s: 1}\n[hr9.%s, keys(hr9)]", "[1, 2] via (%s => %s * 2)", "reduce([1, 2], (%s, hx9) => %s + hx9, 0)",
+           "%s = hx9 => if hx9 <= 0 then 0 else 1 + %s(hx9 - 1)\n%s(3)",
+           "%s = 4\nhwrap9 = () => (() => %s)\nhwrap9()()", "output %s = 2\n%s + 1"]
+    ren_src = []
+    for n in names:
+        for tpl in REN:
+            ren_src.append(tpl.replace("%s", n))
+    ref_out = [re.sub(r"@(-|[0-9a-f]+)", "", o) for o in c.harness_lines_resilient(h, "eval", [c.hexs(t.replace("%s", "zq9")) for t in REN])]
+    ren_out = c.harness_lines_resilient(h, "eval", [c.hexs(sx) for sx in ren_src])
     fails, known, viol = {}, 0, 0
+    for k, o in enumerate(ren_out):
+        n = names[k // len(REN)]
+        # the statement results only (the environment listing is sorted by name); record keys are hex
+        want = ref_out[k % len(REN)].split(";ENV:")[0].replace(c.hexs("zq9"), c.hexs(n))
+        got = re.sub(r"@(-|[0-9a-f]+)", "", o).split(";ENV:")[0]
+        if got != want:
+            fails.setdefault(n, []).append((ren_src[k], got, want + "   (the same program over the name zq9)"))
     for (n, src, exp), o in zip(info, outs):
         if o != exp:
             fails.setdefault(n, []).append((src, o, exp))
@@ -727,7 +754,7 @@ def ident_stream(h, res, rng, tier, builtin_names, model_ok=True):
                            "observed": o, "expected": exp, "failing_templates": len(fl),
                            "rerun": "./check C10 --replay <this file>"})
     ok_known_class = sum(1 for n in names if ident_in_known_class(n) and n not in fails)
-    res.streams["SEARCH-identifiers"] = {"names": len(names), "programs": len(lines) + len(ev_lines),
+    res.streams["SEARCH-identifiers"] = {"names": len(names), "programs": len(lines) + len(ev_lines) + len(ren_src), "renaming_templates": len(REN),
                                          "names_failing": len(fails), "in_known_class": known,
                                          "known_class_names_that_work": ok_known_class, "violations": viol,
                                          "sample_names": names[:12]}
